@@ -10,6 +10,7 @@ import (
 
 type TypeInfo struct {
 	structNames map[*types.Struct]string
+	nameOwner   map[string]*types.Struct
 	typeIDs     map[string]int
 	typeByID    map[int]types.Type
 }
@@ -58,6 +59,17 @@ func (ti *TypeInfo) structName(named types.Type, st *types.Struct) string {
 	} else {
 		n = fmt.Sprintf("anon%d_%s", len(ti.structNames), shortTypeName(st))
 	}
+	// package names are not unique (sync vs internal/sync): disambiguate on collision
+	if ti.nameOwner == nil {
+		ti.nameOwner = map[string]*types.Struct{}
+	}
+	for k := 2; ; k++ {
+		if owner, taken := ti.nameOwner[n]; !taken || owner == st {
+			break
+		}
+		n = fmt.Sprintf("%s~%d", strings.TrimRight(strings.Split(n, "~")[0], "~"), k)
+	}
+	ti.nameOwner[n] = st
 	ti.structNames[st] = n
 	return n
 }
@@ -120,6 +132,9 @@ func (ti *TypeInfo) sortOf(t types.Type) string {
 	case *types.Struct:
 		return ti.structSort(t, u)
 	case *types.Array:
+		if b, ok := u.Elem().Underlying().(*types.Basic); ok && b.Kind() == types.Uint8 {
+			return SString // fixed-size byte arrays are strings of that length
+		}
 		return ArraySort(SInt, ti.sortOf(u.Elem()))
 	case *types.Tuple:
 		return "Tuple"
